@@ -37,7 +37,8 @@ func (t *XMPPTransport) Connect() (string, error) {
 
 	t.conn, err = net.DialTimeout("tcp", t.Config.Address, time.Duration(t.Config.ConnectTimeout)*time.Second)
 	if err != nil {
-		return "", NewConnError(err, true)
+		// The server may just be restarting: failing to reach it is not a reason to stop trying
+		return "", NewConnError(err, false)
 	}
 
 	// A new TCP connection is never secure, whatever the previous one was
